@@ -69,3 +69,58 @@ def Faithful (I : IntTy) (x : FVal) (fr : Frac) : Prop := violated I x fr = none
 instance (I : IntTy) (x : FVal) (fr : Frac) : Decidable (Faithful I x fr) := by unfold Faithful; exact inferInstance
 
 end Cnl.MakeFractionSpec
+
+/-! ## Known defect classes (decidable predicates of the input)
+
+The unchanged code violates the property on large parts of its domain.  Each class is a
+decidable predicate of `(F, I, x)` — defined through the model's evaluation, which the
+correspondence check ties to the real code on every run — and is listed in `findings/C17.json`. -/
+namespace Cnl.MakeFractionSpec
+open Cnl Cnl.MakeFraction
+
+inductive Defect where
+  /-- an internal `CNL_ASSERT` fails (debug build: abort; release build: `unreachable()`) -/
+  | assertion
+  /-- `⌊|x|⌋ = max`: `left.numerator + 1` overflows before anything is compared -/
+  | ubFloorMax
+  /-- undefined behaviour inside the search: out-of-range `static_cast<int_t>(floating)` or signed overflow -/
+  | ubSearch
+  /-- the search does not terminate within the fuel -/
+  | hang
+  /-- a fraction is returned that violates the given clause -/
+  | clause (c : Clause)
+  /-- the returned fraction converts back to the input (`static_cast<FP>(f) == x`) but is not equal
+  to it although the input is a ratio of representable integers (simplest fraction in the rounding interval) -/
+  | notExactRoundTrip
+deriving DecidableEq, Repr
+
+def Defect.id : Defect → String
+  | .assertion => "C17.internal_assertion_fails"
+  | .ubFloorMax => "C17.ub_floor_is_max"
+  | .ubSearch => "C17.ub_in_search"
+  | .hang => "C17.hang"
+  | .clause c => "C17." ++ c.toString
+  | .notExactRoundTrip => "C17.simplest_fraction_not_exact"
+
+/-- `⌊|x|⌋ = numeric_limits<int_t>::max()` -/
+def floorIsMax (I : IntTy) (x : FVal) : Bool :=
+  match fToInt ⟨I.bits + 1, true⟩ x.abs with
+  | .ok v => decide (v = I.max)
+  | _ => false
+
+/-- the defect class of an input (none: the model's result is faithful, or the input is outside
+the property's domain) -/
+def classify (F : Fmt) (I : IntTy) (x : FVal) (fuel : Nat) : Option Defect :=
+  if inDomain I x = false then none else
+  match makeFractionX F I x fuel with
+  | .ok (fr, _) =>
+    match violated I x fr with
+    | none => none
+    | some .exact => if fCmp .eq (fracToF F fr) x then some .notExactRoundTrip else some (.clause .exact)
+    | some c => some (.clause c)
+  | .unreachable _ => some .assertion
+  | .ub _ => if floorIsMax I x then some .ubFloorMax else some .ubSearch
+  | .diverges => some .hang
+  | _ => some .hang
+
+end Cnl.MakeFractionSpec
